@@ -51,6 +51,13 @@ type TVal struct {
 	M    map[string]int `json:",omitempty"`
 }
 
+// IVal is a struct value whose static type is comparable although its content need not be
+// (an interface field holding a slice or a map).
+type IVal struct {
+	Name  string
+	Extra interface{}
+}
+
 // Config fixes one configuration of tree + environment + finite universe.
 type Config struct {
 	Name     string
